@@ -15,8 +15,8 @@ CHECKS = {
          "4/C03", TB),
  "C05": ("proof", "Wire-first: for every class, decoding E_T(x) yields x (match clause), x is in the writer's domain, and the writer emits E_T(x) again; results on arbitrary accepted input lie in the writer's domain (general clause of C10).",
          "4/C05", TB + " The three float-based time writers (write_timedelta_i32, write_datetime_i64, write_nullable_datetime_i64) are proved under the standard model of IEEE-754 binary64 rounding (kvc/fpmodel.py: machine arithmetic treated as bounded-error real arithmetic, an assumption); a native grid runs alongside as validation of that assumption."),
- "C06": ("proof", "For every class and every symbolic cut position: the real read_entity body on the strict prefix raises BufferUnderflow (truncation clause), composed from the truncation clauses of all leaf readers and the array loop rule.",
-         "4/C06", TB),
+ "C06": ("proof", "For every class and every symbolic cut position: the real read_entity body on the strict prefix raises BufferUnderflow (truncation clause), composed from the truncation clauses of all leaf readers and the array loop rule (array factories verified for the abstract item reader and for every leaf item reader in use).",
+         "4/C06", TB + " A native sweep (every strict prefix of one populated instance per class) runs as a labelled bounded stand-in: it proves nothing and is the witness finder for code the engine cannot model."),
  "C07": ("proof", "Interface discipline of every function under contract (all leaf readers/writers, the array closures, write_tagged_field, and write_entity/read_entity of all 1629 classes): the sink is used only through write(bytes), the source only through read(int), no probing of the stream's type; sequencing lemma over the class contracts for two (header, payload) messages back to back with arbitrary leading and trailing bytes, for every payload class.",
          "4/C07", TB + " Assumed contract of IO[bytes] and asyncio.StreamWriter.write; a bounded native run over three stream kinds is a stand-in, not proof."),
  "C08": ("proof", "The three header-selection functions are executed symbolically (api key, version, flexibility symbolic) against the Kafka rule; ground: all payload classes carry the header the rule gives, request/response pairs agree, the index mappings are mutually inverse (exhaustive).",
